@@ -3,6 +3,8 @@ CONSTANT MaxLen = 5
 CONSTANT Deviations = {}
 CONSTANT EmitCase = TRUE
 CONSTANT EmitMod = 150
+CONSTANT Alphabet = "A"
+CONSTANT MCFuelC = 60
 CONSTANT FUEL <- MCFuel
 INVARIANT VerdictReflectsState
 INVARIANT VerdictStrict
